@@ -193,6 +193,16 @@ class GrammarModel:
             return "[" + r(ch[0]) + "]"
         return self.render(t)
 
+    def assignment_rule_name(self) -> str:
+        """the rule of one `name = expression` line, found by what it matches, not by its name (it is an inlined rule:
+        no Python code refers to it by name)"""
+        if "assignment" in self.rules:
+            return "assignment"
+        names = [n for n, r in self.rules.items() if r["shape"].replace(" ", "").startswith('VARIABLE"="expression')]
+        if not names:
+            raise AnalysisError(f"{GRAMMAR_REL}: no rule of the form VARIABLE \"=\" expression ... (anchor vanished)")
+        return names[0]
+
     def rule(self, name: str) -> dict:
         if name not in self.rules:
             raise AnalysisError(f"grammar rule `{name}` not found in ode.lark")
